@@ -240,15 +240,13 @@ func nilPointer(v Value) bool {
 		}
 		r = r.Elem()
 	}
-	return r.Kind() == reflect.Struct && embedsNil(r, 0)
+	return r.Kind() == reflect.Struct && embedsNil(r, nil)
 }
 
 // embedsNil reports whether the struct r has an embedded field, at any depth
-// of embedding, that is a nil pointer or a nil interface.
-func embedsNil(r reflect.Value, depth int) bool {
-	if depth > 8 {
-		return false
-	}
+// of embedding, that is a nil pointer or a nil interface. (Embedded pointers
+// may lead back to a struct already looked at: visited holds those followed.)
+func embedsNil(r reflect.Value, visited map[uintptr]bool) bool {
 	t := r.Type()
 	for i := 0; i < t.NumField(); i++ {
 		if !t.Field(i).Anonymous {
@@ -259,9 +257,18 @@ func embedsNil(r reflect.Value, depth int) bool {
 			if f.IsNil() {
 				return true
 			}
+			if f.Kind() == reflect.Ptr {
+				if visited[f.Pointer()] {
+					return false
+				}
+				if visited == nil {
+					visited = map[uintptr]bool{}
+				}
+				visited[f.Pointer()] = true
+			}
 			f = f.Elem()
 		}
-		if f.Kind() == reflect.Struct && embedsNil(f, depth+1) {
+		if f.Kind() == reflect.Struct && embedsNil(f, visited) {
 			return true
 		}
 	}
